@@ -927,3 +927,35 @@ def factories_choose_kind(u: int, de: int, dh: int, fails: int) -> str:
         elif type(y) is not st.SimpleStore: return "history store %r" % (y,)
         a = x = y = None
         return "ok"
+
+
+@condition(timeout={"quick": 60, "thorough": 120}, functions=["StateEngine.restore_lost_execution / update_execution_history / end_execution over each kind of executions store (absent record)"])
+def lost_record_is_restored(kind: int, via: int) -> bool:
+    """
+    requires: 0 <= kind < 2 and 0 <= via < 2
+    ensures: _
+    """
+    # the execution's record is absent (engine restarted with a volatile store, or the record's time-to-live expired):
+    # the engine recreates it lazily - with a store that answers an absent key with None (in-memory) and with one that
+    # answers with an empty view (Redis)
+    from asl_workflow_engine import state_engine as se
+    fresh()
+    asl = {"StartAt": "P", "States": {"P": {"Type": "Succeed"}}}
+    eng, log = stubs.make_engine(asl)
+    if kind == 1:
+        eng.executions = st.create_executions_store(URL)
+        eng.execution_history = st.create_history_store(URL)
+    sm = eng.asl_store[stubs.SM_ARN]
+    ev = stubs.running_event("P", {"Error": "Boom", "Cause": "c"})
+    try:
+        if via == 0:
+            eng.update_execution_history(sm, stubs.EX_ARN, "PassStateEntered", {"input": "{}", "name": "P"})
+        else:
+            eng.end_execution(sm, "Pass", ev)
+    except Exception:
+        return False
+    rec = eng.executions.get(stubs.EX_ARN)
+    rec = rec.to_dict() if hasattr(rec, "to_dict") else rec
+    if not rec or rec.get("executionArn") != stubs.EX_ARN or rec.get("stateMachineArn") != stubs.SM_ARN:
+        return False
+    return rec.get("status") == ("RUNNING" if via == 0 else "FAILED")
